@@ -43,6 +43,10 @@ func (g *gen) storms() {
 		urls := e.urls[:2]
 		perURL := 1 + r.Intn(2) // writer goroutines per URL
 		sets := 8 + r.Intn(6)
+		if rep%3 == 0 {
+			// bundles that share the base (or the delta) and differ only in the other part
+			pool = append([]*bundleT{}, e.shared...)
+		}
 		if rep%3 == 1 {
 			// eight writers and four readers on ONE url
 			urls = e.urls[:1]
